@@ -539,7 +539,11 @@ func (p *Parser) addPkgToUniverse(pkg *packages.Package, u *types.Universe) erro
 		switch obj := s.Lookup(n).(type) {
 		case *gotypes.TypeName:
 			t := p.walkType(*u, nil, obj.Type())
-			p.addCommentsToType(obj, t)
+			// The comments of an alias declaration (type X = T) document X,
+			// not T: do not hand them to the type the alias stands for.
+			if !obj.IsAlias() {
+				p.addCommentsToType(obj, t)
+			}
 		case *gotypes.Func:
 			// We only care about functions, not concrete/abstract methods.
 			if obj.Type() != nil && obj.Type().(*gotypes.Signature).Recv() == nil {
